@@ -157,6 +157,23 @@ def _attribute(d, lines, gen_file):
                 return
         d.obligation = "?"
         return
+    if msg.lower().startswith("precondition not satisfied"):
+        # a failed precondition belongs to the CALLER: to the obligations of the function the call sits in (the
+        # nearest labelled contract / hint line above the call), not to the label of the callee's `requires` clause
+        for sp in ordered:
+            if not sp["primary"]:
+                continue
+            ln = sp["line_start"]
+            if sp.get("file") and os.path.basename(sp["file"]) != gen_file:
+                continue
+            k = ln - 1
+            while k >= 1 and ln - k < 600:
+                lab = lines[k - 1].label
+                if lab and not lab.startswith("VAC."):
+                    parts = [x if x.endswith("~hint") else x + "~hint" for x in lab.split(",")]
+                    d.kind, d.obligation = "label", ",".join(parts)
+                    return
+                k -= 1
     for sp in ordered:
         o = origin_of(sp)
         if o is not None and o.label:
